@@ -27,7 +27,8 @@ for patch in /verif/selftest/mutants/*.patch; do
   if [ $# -gt 0 ]; then case " $* " in *" $id "*) ;; *) continue ;; esac; fi
   idx=$((idx+1)); if [ -n "$SH_K" ] && [ $((idx % SH_N)) -ne "$SH_K" ]; then continue; fi
   if ! (cd $D/repo && git apply "$patch" 2>/dev/null); then echo "$base: PATCH-DOES-NOT-APPLY" | tee -a "$OUT.tmp"; fail=1; restore; continue; fi
-  if ! (cd $D/harness && cargo build --release --offline >/dev/null 2>&1); then echo "$base: BUILD-FAILED" | tee -a "$OUT.tmp"; fail=1; restore; continue; fi
+  # a build may be killed for lack of memory when several scratch copies build at once: retry once before giving up
+  if ! (cd $D/harness && cargo build --release --offline >/dev/null 2>&1) && ! (cd $D/harness && sleep 20 && cargo build --release --offline >$D/build-fail.log 2>&1); then echo "$base: BUILD-FAILED" | tee -a "$OUT.tmp"; fail=1; restore; continue; fi
   log="$($D/target/release/check --property "$id" --tier quick --no-evidence 2>/dev/null)"; code=$?
   restore
   sig="$(echo "$log" | grep -m1 '^DETAIL' | sed 's/^DETAIL signature=\([^ ]*\).*/\1/')"
